@@ -1062,12 +1062,15 @@ def drop_case(v, shape, N, opts):
         arr = [("a", a_kind), ("b", "int")]
         obj = v.frame(arr, N, labels="l", distinct_labels=True)
         schema = pa.Column(float, Check.ge(lo), nullable=nullable, unique=unique_a, report_duplicates=rd, coerce=coerce, name="a", drop_invalid_rows=True)
-    elif shape in ("frame", "frame_wide", "frame_joint", "frame_index", "model"):
+    elif shape in ("frame", "frame_wide", "frame_wide3", "frame_joint", "frame_index", "model"):
         arr = [("a", a_kind), ("b", "int")]
         # frame_wide: the dataframe-level check compares a with b; its treatment of null rows is C19's subject, so a is null-free here
-        obj = v.frame([("a", a_kind, False if shape == "frame_wide" else None), ("b", "int")], N, labels="l", distinct_labels=True)
+        # frame_wide3: a third, nullable column that the check does not look at (its nulls must not shield a failing row)
+        extra = [("c", "float")] if shape == "frame_wide3" else []
+        arr = arr + extra
+        obj = v.frame([("a", a_kind, False if shape.startswith("frame_wide") else None), ("b", "int")] + extra, N, labels="l", distinct_labels=True)
         kw = {}
-        if shape == "frame_wide":
+        if shape.startswith("frame_wide"):
             kw["checks"] = Check(lambda d: d["a"] >= d["b"], ignore_na=True)
         if shape == "frame_joint":
             kw["unique"] = ["a", "b"]
@@ -1084,11 +1087,14 @@ def drop_case(v, shape, N, opts):
 
             schema = M
         else:
-            schema = pa.DataFrameSchema({"a": pa.Column(float, Check.ge(lo), nullable=nullable, unique=unique_a, report_duplicates=rd, coerce=coerce),
-                                         "b": pa.Column(int, Check.isin([1, 2, 3]))}, drop_invalid_rows=True, **kw)
+            cols_ = {"a": pa.Column(float, Check.ge(lo), nullable=nullable, unique=unique_a, report_duplicates=rd, coerce=coerce),
+                     "b": pa.Column(int, Check.isin([1, 2, 3]))}
+            if shape == "frame_wide3":
+                cols_["c"] = pa.Column(float, nullable=True)
+            schema = pa.DataFrameSchema(cols_, drop_invalid_rows=True, **kw)
     snap = H.snapshot(obj)
     o = H.outcome(lambda: schema.validate(obj, lazy=True))
-    cells = {c: v.cells(f"{c}_", k, N, k in ("float", "str", "Int") and not (shape == "frame_wide" and c == "a")) for c, k in arr}
+    cells = {c: v.cells(f"{c}_", k, N, k in ("float", "str", "Int") and not (shape.startswith("frame_wide") and c == "a")) for c, k in arr}
     xa, na = cells["a"]
     # ---- oracle: row i is invalid iff it violates a row-level constraint (uniqueness as reported)
     bad = []
@@ -1098,7 +1104,7 @@ def drop_case(v, shape, N, opts):
         if shape not in ("series", "column", "series_Int"):
             xb, nb = cells["b"]
             b.append(z3.Not(z3.Or(xb[i] == 1, xb[i] == 2, xb[i] == 3)))
-        if shape == "frame_wide":
+        if shape.startswith("frame_wide"):
             xb, _ = cells["b"]
             b.append(z3.And(z3.Not(na[i]), z3.Not((z3.ToReal(xa[i]) if z3.is_int(xa[i]) else xa[i]) >= z3.ToReal(xb[i]))))
         if shape == "frame_index":
@@ -1210,6 +1216,15 @@ def subsample_case(v, shape, N, which):
     if shape == "series":
         obj = v.series("a_", "float", N, nullable=False, sname="a", labels="l")
         schema = pa.SeriesSchema(float, Check.ge(lo), name="a", unique=v.bool("unique"))
+    elif shape == "model":  # the class-based entry point forwards head/tail/sample/random_state to the same machinery
+        obj = v.frame([("a", "float", False), ("b", "int")], N, labels="l")
+        uq = v.bool("unique")
+
+        class M(pa.DataFrameModel):
+            a: float = pa.Field(ge=lo, unique=uq)
+            b: int
+
+        schema = M
     else:
         obj = v.frame([("a", "float", False), ("b", "int")], N, labels="l")
         schema = pa.DataFrameSchema({"a": pa.Column(float, Check.ge(lo), unique=v.bool("unique")), "b": pa.Column(int)},
@@ -1236,7 +1251,7 @@ def subsample_case(v, shape, N, which):
             s.append(picks[i])
         sel.append(zor(s) if which else z3.BoolVal(True))
     ok_rows = [z3.Implies(sel[i], xa[i] >= v.z(lo)) for i in range(N)]
-    uniq = v.z(schema.unique if shape == "series" else schema.columns["a"].unique)
+    uniq = v.z(schema.unique if shape == "series" else (uq if shape == "model" else schema.columns["a"].unique))
     nodup = zand(z3.Not(z3.And(sel[i], sel[j], xa[i] == xa[j])) for i in range(N) for j in range(i))
     wide = zand(z3.Implies(sel[i], z3.Int(f"b_{i}") <= 5) for i in range(N)) if shape == "frame_wide" else z3.BoolVal(True)
     spec = z3.And(zand(ok_rows), z3.Implies(uniq, nodup), wide)
@@ -1529,6 +1544,10 @@ T_INVALID = {
     "remove_missing": lambda S: S.remove_columns(["nope"]),
     "update_missing": lambda S: S.update_column("nope", nullable=True),
     "update_name": lambda S: S.update_column("a", name="zz"),
+    "update_columns_unknown_empty": lambda S: S.update_columns({"nope": {}}),
+    "update_columns_unknown_among_valid": lambda S: S.update_columns({"a": {"nullable": True}, "nope": {}}),
+    "update_columns_unknown": lambda S: S.update_columns({"nope": {"nullable": True}}),
+    "remove_existing_and_missing": lambda S: S.remove_columns(["a", "nope"]),
     "rename_missing": lambda S: S.rename_columns({"nope": "x"}),
     "rename_clash": lambda S: S.rename_columns({"a": "b"}),
     "select_missing": lambda S: S.select_columns(["a", "nope"]),
@@ -1806,6 +1825,32 @@ def model_case(v, shape, N):
                                            "b": pa.Column(int, Check.isin([1, 2, 3]))})
         arr = [("a", "float"), ("b", "int")]
         models = [M]
+    elif shape == "two_parsers":
+        # two @parser methods on the same field, one inherited and one added by the subclass: both are applied, in order
+        from pandera import Parser
+
+        class Base(pa.DataFrameModel):
+            a: float = pa.Field(ge=lo, nullable=nullable)
+            b: int
+
+            @pa.parser("a")
+            def fill(cls, s):  # noqa: N805
+                return s.fillna(0.5)
+
+        class M(Base):
+            @pa.parser("a")
+            def fill_again(cls, s):  # noqa: N805  (a second parser of the same field)
+                return s.fillna(1.5)
+
+            @pa.parser("b")
+            def keep(cls, s):  # noqa: N805
+                return s
+
+        spec = lambda: pa.DataFrameSchema({"a": pa.Column(float, Check.ge(lo), nullable=nullable, parsers=[Parser(lambda s: s.fillna(1.5)), Parser(lambda s: s.fillna(0.5))]),  # noqa: E731  (collection follows the MRO: the subclass parser runs first)
+                                           "b": pa.Column(int, parsers=Parser(lambda s: s))})
+        arr = [("a", "float"), ("b", "int")]
+        models = [M]
+        asserts.append(("model/number_of_parsers", v.holds(len(M.to_schema().columns["a"].parsers) == 2 and len(Base.to_schema().columns["a"].parsers) == 1)))
     elif shape == "falsy_alias":
         # aliases that are falsy but not None: the integer label 0 and the empty string
         class M(pa.DataFrameModel):
@@ -1837,7 +1882,7 @@ def model_case(v, shape, N):
     s1b = M.to_schema()
     asserts.append(("model/to_schema_stable", v.holds(fingerprint(s1) == fingerprint(s1b) and bool(s1 == s1b))))
     S = spec()
-    if shape not in ("check_methods", "inherited_cls_check", "parser_methods"):
+    if shape not in ("check_methods", "inherited_cls_check", "parser_methods", "two_parsers"):
         asserts.append(("model/schema_equals_spec", v.holds(_fp_cols(s1) == _fp_cols(S))))
         facts["fp_model"], facts["fp_spec"] = None, None
     om = H.outcome(lambda: M.validate(df))
